@@ -8,7 +8,7 @@
    (a) Flow.v to pyscn (reported dead ranges = lines of the model's dead statements) and
    (b) PySem.v to CPython (same traces under the same oracles) on generated programs each run. *)
 From Coq Require Import NArith List.
-From PV Require Import Py.PyAST Py.PySem Cfg.Flow Cfg.FlowSound Cfg.Builder Cfg.BuilderBounded.
+From PV Require Import Py.PyAST Py.PySem Cfg.Flow Cfg.FlowSound Cfg.Builder Cfg.BuilderBounded Cfg.BuilderAgree.
 
 Theorem C01_executed_is_marked_reachable :
   forall body fuel o out t, run fuel o body = (out, t) -> forall k, In k t -> In (k, true) (fn_marks body).
@@ -38,7 +38,25 @@ Proof. exact flow_agrees_with_builder_bounded. Qed.
 Theorem C01_ranges_cover_only_dead_bounded : forallb check_ranges all_bodies = true.
 Proof. exact ranges_cover_only_dead_bounded. Qed.
 
+(* UNBOUNDED: the abstraction agrees with the graph-level model on EVERY function body, all constructs (if/elif/else,
+   while/for/else, try/except/else/finally, with, match, comprehensions, nested def/class), plain and wrapped in a loop
+   with an else clause: a statement is marked dead by Cfg/Flow.v iff Cfg/Builder.v puts it into a block the depth-first
+   walk from ENTRY does not reach.  [check_dead] is [check_one] without its complexity component (the complexity part of
+   [check_one] stays bounded, C01_flow_agrees_with_builder_bounded).  Proof: Cfg/BuilderReach.v (DFS = path reachability),
+   Cfg/BuilderFrame*.v (the hasSuccessor(EXIT) guards of the builder never fire), Cfg/BuilderSim.v (simulation by
+   mutual induction over the syntax), Cfg/BuilderAgree.v. *)
+Theorem C01_flow_agrees_with_builder : forall b, check_dead b = true.
+Proof. exact flow_agrees_with_builder. Qed.
+
+(* the same statement at the level of propositions, for every body whose break/continue statements are inside loops *)
+Theorem C01_flow_dead_iff_unreachable : forall body, lok_block false body = true ->
+  (forall k, In k (dead_stmt_lines (build body)) -> k = 0%N \/ In k (dead_ids body)) /\
+  (forall k, In k (dead_ids body) -> In k (dead_stmt_lines (build body)) \/ In k (elif_block body)).
+Proof. exact flow_dead_iff_unreachable. Qed.
+
 Print Assumptions C01_executed_is_marked_reachable.
+Print Assumptions C01_flow_agrees_with_builder.
+Print Assumptions C01_flow_dead_iff_unreachable.
 Print Assumptions C01_flow_agrees_with_builder_bounded.
 Print Assumptions C01_ranges_cover_only_dead_bounded.
 Print Assumptions C01_sound.
